@@ -11,10 +11,15 @@ from ..core import Ctx, Report
 LEVEL = "model_checking"
 
 
+def NOT_STATS(c: str) -> bool:
+    """the logging-statistics clauses of the collector traces belong to C19"""
+    return not c.startswith("Stats")
+
+
 def run(ctx: Ctx) -> Report:
     rep = Report()
     ops.run_mc(ctx, rep)
-    ops.run_c2s(ctx, rep, "C04", ctx.pick(12, 60), ctx.pick(40, 150))
+    ops.run_c2s(ctx, rep, "C04", ctx.pick(12, 60), ctx.pick(40, 150), only=NOT_STATS)
     try:
         from . import real_policy
         rep.merge(real_policy.run_c04(ctx))
@@ -27,6 +32,6 @@ def run(ctx: Ctx) -> Report:
 
 def replay(ctx: Ctx, driver: str, case: dict) -> Report:
     if driver == "onpolicy":
-        return ops.replay(ctx, "C04", case)
+        return ops.replay(ctx, "C04", case, only=NOT_STATS)
     from . import real_policy
     return real_policy.replay(ctx, driver, case)
